@@ -145,9 +145,12 @@ def parseTable (kids : List Dom) : List (List Cell) × Bool :=
 
 /-! ### elements and the list context -/
 
+/-- `listItem`: `Ordered` is the kind of the list the item was met in (nested lists may
+differ from the root); only the Markdown view reads it -/
 structure Item where
   text : Str
   level : Nat
+  ordered : Bool := false
   deriving DecidableEq, Repr
 
 /-- `parsedElement` -/
@@ -199,7 +202,7 @@ def isListElem : Dom → Bool
 /-- the part of the `li` case after the list context is known to be open -/
 def liHead (kids : List Dom) (s : St) : St :=
   let text := getDirectTextContent kids
-  let s1 := if text != [] then { s with items := s.items ++ [⟨text, s.level⟩] } else s
+  let s1 := if text != [] then { s with items := s.items ++ [{ text := text, level := s.level, ordered := s.ordered }] } else s
   { s1 with level := s1.level + 1 }
 
 /-- `ul`/`ol` case before the child loop: a list that starts at level 0 while items are
